@@ -64,14 +64,6 @@ fn b_rep_search<const N: usize>(kind: u8, shortcut: bool) {
 //@ encodes: ReMatcher::matches ReMatcher::match_at GreedyFixed::matches_iter IntStepIterator::next Atom::matches_iter
 std_stubs! { #[kani::unwind(6)] pub(crate) fn b_greedyfixed_n2() { b_rep_search::<2>(0, false) } }
 
-//@ harness: b_greedyfixed_n3
-//@ props: C01 C02 C20
-//@ tier: thorough
-//@ cost: 900
-//@ bound: program GreedyFixed(Atom[c],min,max,1), min<=2, max in {1,2,3,unbounded}; input <= 3 chars over all scalar values; start 0..=len
-//@ encodes: ReMatcher::matches ReMatcher::match_at GreedyFixed::matches_iter IntStepIterator::next Atom::matches_iter
-std_stubs! { #[kani::unwind(7)] pub(crate) fn b_greedyfixed_n3() { b_rep_search::<3>(0, false) } }
-
 //@ harness: b_greedyfixed_minlen_n2
 //@ props: C08
 //@ tier: quick
@@ -88,14 +80,6 @@ std_stubs! { #[kani::unwind(6)] pub(crate) fn b_greedyfixed_minlen_n2() { b_rep_
 //@ encodes: ReMatcher::matches ReMatcher::match_at ReluctantFixed::matches_iter ReluctantFixedIterator::next Atom::matches_iter
 std_stubs! { #[kani::unwind(6)] pub(crate) fn b_reluctantfixed_n2() { b_rep_search::<2>(1, false) } }
 
-//@ harness: b_reluctantfixed_n3
-//@ props: C01 C02 C20
-//@ tier: thorough
-//@ cost: 900
-//@ bound: program ReluctantFixed(Atom[c],min,max,1); input <= 3 chars over all scalar values
-//@ encodes: ReMatcher::matches ReMatcher::match_at ReluctantFixed::matches_iter ReluctantFixedIterator::next
-std_stubs! { #[kani::unwind(7)] pub(crate) fn b_reluctantfixed_n3() { b_rep_search::<3>(1, false) } }
-
 //@ harness: b_unambiguous_n2
 //@ props: C01 C02 C20
 //@ tier: quick
@@ -103,14 +87,6 @@ std_stubs! { #[kani::unwind(7)] pub(crate) fn b_reluctantfixed_n3() { b_rep_sear
 //@ bound: program UnambiguousRepeat(Atom[c],min,max), min<=2, max in {1,2,3,unbounded}; input <= 2 chars over all scalar values; start 0..=len
 //@ encodes: ReMatcher::matches ReMatcher::match_at UnambiguousRepeat::matches_iter Atom::matches_iter
 std_stubs! { #[kani::unwind(6)] pub(crate) fn b_unambiguous_n2() { b_rep_search::<2>(2, false) } }
-
-//@ harness: b_unambiguous_n3
-//@ props: C01 C02 C20
-//@ tier: thorough
-//@ cost: 900
-//@ bound: program UnambiguousRepeat(Atom[c],min,max); input <= 3 chars over all scalar values
-//@ encodes: ReMatcher::matches ReMatcher::match_at UnambiguousRepeat::matches_iter
-std_stubs! { #[kani::unwind(7)] pub(crate) fn b_unambiguous_n3() { b_rep_search::<3>(2, false) } }
 
 //@ harness: b_reluctantrepeat_n2
 //@ props: C01 C02 C06
@@ -270,6 +246,7 @@ std_stubs! { #[kani::unwind(5)] pub(crate) fn b_repeat_fullwidth() { b_bounds_fu
 
 // ---- yield order with a two-character body (len = 2) -----------------------
 //@ harness: b_greedyfixed_order_len2
+//@ rss: 6
 //@ props: C02 C20 C01
 //@ tier: quick
 //@ cost: 200
